@@ -93,6 +93,11 @@ def parse_dist(vals):
 ERRMAP = {1: "ValueError", 2: "ValueError", 3: "ValueError", 4: "ValueError", 5: "KeyError", 6: "ValueError", 7: "ValueError", 8: "ValueError", 9: "IndexError", 10: "TypeError"}
 
 
+def ctx_routes_done(ctx, case):
+    """two-route comparisons are run for the random tensors only (boundary cases sit ON thresholds by construction)"""
+    return str(case.get("label", "")).startswith("boundary")
+
+
 class _Opaque:
     """an index argument of an unrelated type"""
 
@@ -175,12 +180,27 @@ def chk_dist(ctx, case):
                 ("reversed-view", lambda: np.array(ps[::-1], dtype=float)[::-1])]
     if all(float(x).is_integer() for x in ps):
         variants.append(("int-dtype", lambda: np.array([int(x) for x in ps])))
+
+    def _readonly():
+        a = np.array(ps, dtype=float); a.setflags(write=False); return a
+    variants.append(("read-only", _readonly))
     for vname, mk in variants:
         try:
             with warnings.catch_warnings():
                 warnings.simplefilter("ignore")
-                d2 = MD(mk(), shape=None if shape_arg is None else tuple(shape_arg), **kw)
+                arg = mk()
+                before = [float(x) for x in arg]
+                d2 = MD(arg, shape=None if shape_arg is None else tuple(shape_arg), **kw)
             same = list(d2.shape) == list(d.shape) and bool(d2.is_zero_dist) == bool(d.is_zero_dist) and [float(x) for x in d2.ps] == [float(x) for x in d.ps]
+            if same and isinstance(arg, np.ndarray):
+                # the caller's array is an INPUT: it is not written to, and writing to it afterwards does not change the object
+                if [float(x) for x in arg] != before and not (np.isnan(before).any()):
+                    ctx.violation("dist", "MultinomialDistribution.__init__", "writes-into-argument", "ps given as %s: the caller's array %s was changed to %s" % (vname, before, [float(x) for x in arg]), case)
+                if arg.flags.writeable:
+                    keep = [float(x) for x in d2.ps]
+                    arg[...] = 0.375
+                    if [float(x) for x in d2.ps] != keep:
+                        ctx.violation("dist", "MultinomialDistribution.__init__", "aliases-argument", "ps given as %s: writing to the caller's array afterwards changed the distribution %s -> %s" % (vname, keep, [float(x) for x in d2.ps]), case)
         except Exception as e:
             same = False
         ctx.count("dist", key=("variant", vname, tuple(shape), pkey), nontrivial=False, label="input-" + vname)
@@ -229,6 +249,10 @@ def chk_dist(ctx, case):
             ctx.violation("dist", "MultinomialDistribution.marginalize", "unexpected-raise", "remain=%s impl raised %s" % (rem, impl[1]), sub)
             continue
         sh_m, zero_m, ps_m = parse_dist(val)
+        got_ps = [float(x) for x in md.ps]
+        if md.ps.flags.writeable:
+            md.ps[...] = 0.625          # the caller scribbles on the RETURNED array: the parent must not change (checked at the end)
+        md = type("Snap", (), {"ps": got_ps, "shape": md.shape})()
         if list(md.shape) != sh_m or not flow.allclose(list(md.ps), ps_m, 1e-12):
             ctx.violation("dist", "MultinomialDistribution.marginalize", "value", "remain=%s impl %s %s model %s %s" % (rem, md.shape, list(md.ps), sh_m, ps_m), sub)
             continue
@@ -245,6 +269,40 @@ def chk_dist(ctx, case):
                 e = e / e.sum()
         if not flow.allclose(list(md.ps), list(e), 1e-9):
             ctx.violation("dist", "MultinomialDistribution.marginalize", "not-sum-over-removed", "remain=%s got %s expected %s" % (rem, list(md.ps), list(e)), sub)
+    # --- the same marginal / conditional reached by two routes: in one step, or through an intermediate distribution
+    #     (thresholding at the intermediate object may move values by ~1e-8: compared at 1e-6, only when no entry sits near the threshold)
+    rank = len(shape)
+    if rank >= 2 and not zero_m and min([x for x in base_ps if x > 0] + [1.0]) > 1e-5 and not ctx_routes_done(ctx, case):
+        with warnings.catch_warnings():
+            warnings.simplefilter("ignore")
+            for keep2 in itertools.combinations(range(rank), rank - 1):
+                for a in keep2:
+                    tgt = [x for x in keep2 if x != a]
+                    if not tgt:
+                        continue
+                    try:
+                        one = d.marginalize(list(tgt))
+                        mid = d.marginalize(list(keep2))
+                        two = mid.marginalize([sorted(keep2).index(x) for x in tgt])
+                    except Exception:
+                        continue
+                    ctx.count("dist", key=("marg-route", tuple(shape), pkey, keep2, a), nontrivial=True, label="route-marginal")
+                    if list(one.shape) != list(two.shape) or not flow.allclose(list(one.ps), list(two.ps), 1e-6):
+                        ctx.violation("dist", "MultinomialDistribution.marginalize", "route-dependent", "marginal over %s: directly %s, through the marginal over %s: %s" % (tgt, list(one.ps), list(keep2), list(two.ps)), dict(case, route=[list(keep2), list(tgt)]))
+            for a in range(rank):
+                for b in range(rank):
+                    if a == b or rank < 3:
+                        continue
+                    va, vb = shape[a] - 1, 0
+                    try:
+                        one = d.conditionalize([a, b], [va, vb])
+                        mid = d.conditionalize([a], [va])
+                        two = mid.conditionalize([b - (1 if a < b else 0)], [vb])
+                    except Exception:
+                        continue
+                    ctx.count("dist", key=("cond-route", tuple(shape), pkey, a, b), nontrivial=True, label="route-conditional")
+                    if list(one.shape) != list(two.shape) or not flow.allclose(list(one.ps), list(two.ps), 1e-6):
+                        ctx.violation("dist", "MultinomialDistribution.conditionalize", "route-dependent", "conditional on (%d=%d, %d=%d): directly %s, in two steps %s" % (a, va, b, vb, list(one.ps), list(two.ps)), dict(case, route=[a, b]))
     # --- conditionals
     for idxs, vals in case["conds"]:
         try:
@@ -659,6 +717,7 @@ def chk_ensemble_mprocess(ctx, case):
     c = _csys(kind)
     shape = list(case["counts"])
     first = case.get("first")
+    case0 = case
     zero_at = case.get("zero_at") or [[] for _ in shape]
     chains = []
     if first:
@@ -675,49 +734,79 @@ def chk_ensemble_mprocess(ctx, case):
         warnings.simplefilter("ignore")
         st = State(c, to_vec_from_density_matrix_with_sparsity(c, rho).real.astype(float), is_physicality_required=False)
         mps = [MProcess(c, [to_hs_from_kraus_matrices(c, [k]) for k in ks], is_physicality_required=False) for ks in chains]
-        ens = compose_qoperations(mps[0], st)
-        for mp in mps[1:]:
-            ens = compose_qoperations(mp, ens)
     site = "compose MProcess on state/ensemble"
-    total = int(np.prod(shape))
-    if list(ens.prob_dist.shape) != shape or len(ens.prob_dist.ps) != total or len(ens.states) != total:
-        ctx.violation("ensemble_mprocess", site, "shape", "ensemble shape %s with %d probabilities / %d states, expected %s" % (ens.prob_dist.shape, len(ens.prob_dist.ps), len(ens.states), shape), case)
-        return
-    born = np.zeros(shape)
-    nzero_nonlast = 0
-    for idx in itertools.product(*[range(n) for n in shape]):
-        x = rho
-        for ks, i in zip(chains, idx):
-            x = ks[i] @ x @ ks[i].conj().T
-        p = np.trace(x).real
-        born[idx] = p
-        k_model = int(m.call("idx.serial_from_multi", [len(shape)] + shape + list(idx))[0])
-        if p < 1e-12 and k_model < total - 1:
-            nzero_nonlast += 1
-        ctx.count("ensemble_mprocess", key=(case["seed"], tuple(shape), idx, bool(first)), nontrivial=len(shape) >= 2 and len(set(shape)) > 1)
-        got_p = float(ens.prob_dist[tuple(idx)]) if len(idx) > 1 else float(ens.prob_dist[int(idx[0])])
-        if abs(got_p - p) > 1e-9 or abs(float(ens.prob_dist.ps[k_model]) - p) > 1e-9:
-            ctx.violation("ensemble_mprocess", site, "probability-layout", "outcome %s: probability %s (flat entry %s), Born rule gives %s" % (idx, got_p, ens.prob_dist.ps[k_model], p), dict(case, idx=list(idx)))
-            continue
-        if p > 1e-6:
-            post = x / p
-            got = ens.state(tuple(idx) if len(idx) > 1 else int(idx[0])).to_density_matrix()
-            got2 = ens.states[k_model].to_density_matrix()
-            if np.abs(got - post).max() > 1e-8 or np.abs(got2 - post).max() > 1e-8:
-                ctx.violation("ensemble_mprocess", site, "state-layout", "outcome %s: post-measurement state differs from K rho K^dag / p by %.3g" % (idx, np.abs(got - post).max()), dict(case, idx=list(idx)))
-    # zero-probability FIRST outcomes (the class the layout depends on): position of the impossible first outcomes
-    p_first = born.reshape(shape[0], -1).sum(axis=1)
-    zf = [i for i in range(shape[0]) if p_first[i] < 1e-12]
-    lab = "generic" if not first else ("first-outcome-impossible:" + ("none" if not zf else "last-only" if zf == [shape[0] - 1] else "non-last"))
-    ctx.count("ensemble_mprocess", key=(case["seed"], tuple(shape), "table", bool(first)), nontrivial=len(shape) >= 2, label=lab + ("/zero-entries-before-end" if nzero_nonlast else ""))
-    # the joint's marginal over the first k variables is the distribution after the first k measurements
-    for kk in range(1, len(shape)):
+    # EVERY route to the same ensemble: sequential application, the variadic call, and each bracketing in which instruments are
+    # composed FIRST (a composite instrument B o A has the multi-index outcome shape (m1, m2)) and then applied to the state / ensemble
+    for route in (case.get("routes") or _routes(len(mps))):
         with warnings.catch_warnings():
             warnings.simplefilter("ignore")
-            mg = ens.prob_dist.marginalize(list(range(kk)))
-        e = born.reshape(int(np.prod(shape[:kk])), -1).sum(axis=1)
-        if list(mg.shape) != shape[:kk] or not flow.allclose(list(mg.ps), list(e), 1e-8):
-            ctx.violation("ensemble_mprocess", site, "marginal-of-joint", "marginal over the first %d measurement(s) is %s, their own outcome distribution is %s" % (kk, list(mg.ps), list(e)), case)
+            ens = _apply_route(route, mps, st, compose_qoperations)
+        case = dict(case0, routes=[route])
+        total = int(np.prod(shape))
+        if list(ens.prob_dist.shape) != shape or len(ens.prob_dist.ps) != total or len(ens.states) != total:
+            ctx.violation("ensemble_mprocess", site, "shape", "route %s: ensemble shape %s with %d probabilities / %d states, expected %s" % (route, ens.prob_dist.shape, len(ens.prob_dist.ps), len(ens.states), shape), case)
+            continue
+        born = np.zeros(shape)
+        nzero_nonlast = 0
+        for idx in itertools.product(*[range(n) for n in shape]):
+            x = rho
+            for ks, i in zip(chains, idx):
+                x = ks[i] @ x @ ks[i].conj().T
+            p = np.trace(x).real
+            born[idx] = p
+            k_model = int(m.call("idx.serial_from_multi", [len(shape)] + shape + list(idx))[0])
+            if p < 1e-12 and k_model < total - 1:
+                nzero_nonlast += 1
+            ctx.count("ensemble_mprocess", key=(case["seed"], tuple(shape), idx, bool(first), route), nontrivial=len(shape) >= 2 and len(set(shape)) > 1)
+            got_p = float(ens.prob_dist[tuple(idx)]) if len(idx) > 1 else float(ens.prob_dist[int(idx[0])])
+            if abs(got_p - p) > 1e-9 or abs(float(ens.prob_dist.ps[k_model]) - p) > 1e-9:
+                ctx.violation("ensemble_mprocess", site, "probability-layout", "outcome %s: probability %s (flat entry %s), Born rule gives %s" % (idx, got_p, ens.prob_dist.ps[k_model], p), dict(case, idx=list(idx)))
+                continue
+            if p > 1e-6:
+                post = x / p
+                got = ens.state(tuple(idx) if len(idx) > 1 else int(idx[0])).to_density_matrix()
+                got2 = ens.states[k_model].to_density_matrix()
+                if np.abs(got - post).max() > 1e-8 or np.abs(got2 - post).max() > 1e-8:
+                    ctx.violation("ensemble_mprocess", site, "state-layout", "outcome %s: post-measurement state differs from K rho K^dag / p by %.3g" % (idx, np.abs(got - post).max()), dict(case, idx=list(idx)))
+        # zero-probability FIRST outcomes (the class the layout depends on): position of the impossible first outcomes
+        p_first = born.reshape(shape[0], -1).sum(axis=1)
+        zf = [i for i in range(shape[0]) if p_first[i] < 1e-12]
+        lab = "generic" if not first else ("first-outcome-impossible:" + ("none" if not zf else "last-only" if zf == [shape[0] - 1] else "non-last"))
+        ctx.count("ensemble_mprocess", key=(case["seed"], tuple(shape), "table", bool(first), route), nontrivial=len(shape) >= 2, label=lab + ("/zero-entries-before-end" if nzero_nonlast else "") + "/route:" + route)
+        # the joint's marginal over the first k variables is the distribution after the first k measurements
+        for kk in range(1, len(shape)):
+            with warnings.catch_warnings():
+                warnings.simplefilter("ignore")
+                mg = ens.prob_dist.marginalize(list(range(kk)))
+            e = born.reshape(int(np.prod(shape[:kk])), -1).sum(axis=1)
+            if list(mg.shape) != shape[:kk] or not flow.allclose(list(mg.ps), list(e), 1e-8):
+                ctx.violation("ensemble_mprocess", site, "marginal-of-joint", "marginal over the first %d measurement(s) is %s, their own outcome distribution is %s" % (kk, list(mg.ps), list(e)), case)
+
+
+
+
+def _routes(k):
+    if k == 1:
+        return ["seq"]
+    if k == 2:
+        return ["seq", "variadic", "(BA)r"]
+    return ["seq", "variadic", "(C(BA))r", "((CB)A)r", "C((BA)r)", "(CB)(Ar)"]
+
+
+def _apply_route(route, mps, st, cq):
+    if route == "seq":
+        ens = cq(mps[0], st)
+        for mp in mps[1:]:
+            ens = cq(mp, ens)
+        return ens
+    if route == "variadic":
+        return cq(*(list(reversed(mps)) + [st]))
+    a, b = mps[0], mps[1]
+    if route == "(BA)r":
+        return cq(cq(b, a), st)
+    c = mps[2]
+    return {"(C(BA))r": lambda: cq(cq(c, cq(b, a)), st), "((CB)A)r": lambda: cq(cq(cq(c, b), a), st),
+            "C((BA)r)": lambda: cq(c, cq(cq(b, a), st)), "(CB)(Ar)": lambda: cq(cq(c, b), cq(a, st))}[route]()
 
 
 _CSYS = {}
@@ -819,8 +908,19 @@ def chk_ensemble_skeleton(ctx, case):
         with warnings.catch_warnings():
             warnings.simplefilter("ignore")
             ens = ops._compose_qoperations_MProcess_StateEnsemble(fake, se)
+            ens1 = ops._compose_qoperations_MProcess_State(fake, old_states[0])      # the State entry point, same instrument
     finally:
         ops._compose_qoperations_MProcess_State_for_States = saved
+    # one state measured by an instrument whose outcome shape may be a multi-index: the ensemble carries THAT shape (C16_compose_state_table)
+    exp1 = np.array(cond[0]); 
+    if (exp1 < 1e-8).any():
+        exp1 = np.where(exp1 < 1e-8, 0.0, exp1); exp1 = exp1 / exp1.sum()
+    ctx.count("ensemble_skeleton", key=("state-entry", tuple(msh), tuple(case["cond"][0])), nontrivial=len(msh) >= 2, label="state-entry/mshape-rank%d" % len(msh))
+    if list(ens1.prob_dist.shape) != msh or [(t.e, t.j) for t in ens1.states] != [(0, j) for j in range(mm)] \
+            or not flow.allclose([float(x) for x in ens1.prob_dist.ps], list(exp1), 1e-12) or float(ens1.eps_zero) != e_mp:
+        ctx.violation("ensemble_skeleton", "operators._compose_qoperations_MProcess_State", "layout",
+                      "instrument of outcome shape %s on one state: ensemble shape %s, states %s, ps %s, eps_zero %s; expected shape %s, outcomes in order, ps %s, eps_zero %s" % (
+                          msh, ens1.prob_dist.shape, [(t.e, t.j) for t in ens1.states], list(ens1.prob_dist.ps), ens1.eps_zero, msh, list(exp1), e_mp), case)
     site = "operators._compose_qoperations_MProcess_StateEnsemble"
     nsh = osh + msh
     if list(ens.prob_dist.shape) != nsh or len(ens.states) != n * mm or len(ens.prob_dist.ps) != n * mm:
